@@ -493,6 +493,7 @@ pub fn map_children(g: &G, f: &mut dyn FnMut(&G) -> G) -> G {
         Filter(a) => Filter(bx(a)),
         TryMap(a) => TryMap(bx(a)),
         TryMapWith(a) => TryMapWith(bx(a)),
+        StGuard(a) => StGuard(bx(a)),
         OrNot(a) => OrNot(bx(a)),
         Not(a) => Not(bx(a)),
         Rewind(a) => Rewind(bx(a)),
@@ -704,6 +705,16 @@ pub fn k_state() -> Class {
     c.leaves.push(Custom(11, true));
     c.unary.push(u1(|a| Some(WithState(a))));
     c
+}
+
+/// state-guard class (C18): user closures whose VERDICT depends on the inspector state they are shown, placed inside
+/// look-aheads, options, choices and recoveries - a state that is wrong only while a sub-parser runs (and put right
+/// afterwards) changes what is accepted
+pub fn k_stguard() -> Class {
+    let leaves = vec![Just('a'), Any, Select("ab")];
+    let unary = vec![u1(|a| Some(StGuard(a))), u1(|a| Some(OrNot(a))), u1(|a| Some(Rewind(a))), u1(|a| Some(Not(a))), u1(|a| if nn(&a) { Some(Rep(a, Bounds::STAR, Sink::Vec)) } else { None })];
+    let binary = vec![u2(|a, c| Some(Then(a, c))), u2(|a, c| Some(Or(a, c))), u2(|a, c| Some(AndIs(a, c))), u2(|a, c| Some(Recover(a, c)))];
+    Class { name: "Kstguard", leaves, unary, binary, ternary: vec![] }
 }
 
 /// padding class (C18, C05): `.padded()` is the one user of `InputRef::skip_while`, a third way of advancing the
@@ -1018,6 +1029,70 @@ pub fn ctx_iter_templates() -> Vec<G> {
     out
 }
 
+/// counts far beyond anything that can be stored (`usize::MAX / 4`, context token 'e'), given statically and read
+/// from the input as a length prefix: every way of configuring a repetition from the context x every way of
+/// consuming it. Such a repetition simply runs out of items (exactly / at_least) or is unbounded (at_most).
+pub fn ctx_huge_templates() -> Vec<G> {
+    let mut cores: Vec<G> = vec![];
+    for it in [Just('a'), Any, Validate(b(OneOf("ab")), 1)] {
+        cores.push(with_rest(RepCtx(b(it.clone()))));
+        cores.push(with_rest(RepCtxMax(b(it.clone()))));
+        cores.push(with_rest(TryRepCtx(b(it.clone()))));
+        for kind in 0..6u8 {
+            cores.push(with_rest(CtxBare(kind, b(it.clone()))));
+        }
+        for bd in [Bounds::STAR, Bounds::new(1, Some(2)), Bounds::new(2, None)] {
+            for kind in 0..3u8 {
+                cores.push(with_rest(RepCtxPre(b(it.clone()), bd, kind)));
+            }
+        }
+    }
+    let mut out = vec![];
+    for core in &cores {
+        out.push(WithCtx('e', b(core.clone())));
+        out.push(ThenWithCtx(b(Any), b(core.clone())));
+        out.push(IgnoreWithCtx(b(OneOf("ae")), b(core.clone())));
+    }
+    for it in [JustCtx, Any, Just('a')] {
+        for kind in 0..6u8 {
+            for s in [Sink::Vec, Sink::Count, Sink::Bare, Sink::Exactly(2), Sink::Foldl(b(Empty)), Sink::Foldr(b(OrNot(b(Just('c')))))] {
+                out.push(with_rest(CtxIter(kind, b(Any), b(it.clone()), s.clone())));
+                out.push(with_rest(IterChain(vec![Part::Opt(b(Just('a'))), Part::Ctx(kind, b(Any), b(it.clone()))], s)));
+            }
+        }
+    }
+    out
+}
+
+/// a context provider as ONE LINK of an iterable chain (`first.then(a.ignore_with_ctx(item.repeated()..))` and the
+/// other way round): the provider is parsed once, when its link starts - not before the chain starts, not again
+/// before every item - and its items see its output as context; each followed by a rest capture
+pub fn ctx_chain_templates() -> Vec<G> {
+    let mut out = vec![];
+    let sinks = vec![Sink::Vec, Sink::Count, Sink::Bare, Sink::Exactly(2), Sink::Foldl(b(Empty)), Sink::Foldr(b(OrNot(b(Just('c'))))), Sink::FoldlWith(b(Any))];
+    let others = vec![
+        Part::Rep(b(Just('c')), Bounds::STAR),
+        Part::Rep(b(Just('a')), Bounds::new(0, Some(1))),
+        Part::Opt(b(Just('c'))),
+        Part::Iter(b(OrNot(b(Just('c'))))),
+        Part::Sep(b(Just('c')), b(Just('a')), Bounds::STAR, false, false),
+    ];
+    for other in &others {
+        for prov in [Any, OneOf("ab")] {
+            for it in [JustCtx, Any, Or(b(JustCtx), b(Just('c')))] {
+                for kind in 0..6u8 {
+                    for s in &sinks {
+                        let link = Part::Ctx(kind, b(prov.clone()), b(it.clone()));
+                        out.push(with_rest(IterChain(vec![other.clone(), link.clone()], s.clone())));
+                        out.push(with_rest(IterChain(vec![link, other.clone()], s.clone())));
+                    }
+                }
+            }
+        }
+    }
+    out
+}
+
 /// Focused output-elision class (C04): emitters under every eliding combinator, deep enough for an
 /// iteration that emits and then fails.
 pub fn k04_deep() -> Class {
@@ -1038,7 +1113,8 @@ pub fn k04_deep() -> Class {
         u2(|a, p| Some(PaddedBy(a, p))),
         u2(|a, s| if nn(&a) && nn(&s) { Some(SepBy(a, s, Bounds::STAR, false, true, Sink::Bare)) } else { None }),
     ];
-    Class { name: "K04deep", leaves, unary, binary, ternary: vec![] }
+    // delimited_by elides both delimiters: an emitting body inside an unclosed pair
+    Class { name: "K04deep", leaves, unary, binary, ternary: vec![u3(|a, o, c| Some(DelimitedBy(a, o, c)))] }
 }
 
 /// Focused memoization-under-lookahead class (C11): a memoized parser that succeeds leaving an error
@@ -1100,6 +1176,9 @@ pub fn k_recfail() -> Class {
         u2(|a, f| Some(Recover(a, f))),
         u2(|a, u| Some(SkipUntil(a, b(Any), u))),
         u2(|a, u| Some(Retry(a, b(Any), u))),
+        // a skip step that reports something itself: what it emitted is not the retry's doing
+        u2(|a, u| Some(Retry(a, b(Validate(b(Any), 2)), u))),
+        u2(|a, u| Some(SkipUntil(a, b(Validate(b(Any), 2)), u))),
     ];
     Class { name: "Krecfail", leaves, unary, binary, ternary: vec![] }
 }
